@@ -932,6 +932,12 @@ loop:
 		// #nosec G305 -- The header was checked for path traversal before it was appended to the dirs slice.
 		path := filepath.Join(dest, hdr.Name)
 
+		// A later entry may have replaced the directory with something else, whose times were set from
+		// that entry: they must not be overwritten with the directory's (nor must a symlink be followed).
+		if fi, err := os.Lstat(path); err == nil && !fi.IsDir() {
+			continue
+		}
+
 		if err := chtimes(path, boundTime(latestTime(hdr.AccessTime, hdr.ModTime)), boundTime(hdr.ModTime)); err != nil {
 			return err
 		}
